@@ -241,12 +241,59 @@ def eval_literal(F: Facts, m: Module, node: ast.AST, _depth: int = 0, env: Optio
     raise NotLiteral(norm(node))
 
 
+def to_python(v):
+    """Python value of an evaluator value that is known completely (constants, displays of constants)."""
+    from .symexec import ListVal, DictVal, freeze
+    if isinstance(v, ListVal):
+        if not v.concrete():
+            raise NotLiteral('list with an unknown part')
+        return [to_python(x) for x in v.elts]
+    if isinstance(v, DictVal):
+        out = {}
+        for it in v.items:
+            if it[0] == 'dstar':
+                raise NotLiteral('dict with an unknown part')
+            out[to_python(it[0])] = to_python(it[1])
+        return out
+    if isinstance(v, tuple) and len(v) == 2 and v[0] == 'const':
+        return v[1]
+    if isinstance(v, tuple) and v[:1] in (('tuple',), ('list',), ('set',)):
+        if any(isinstance(x, tuple) and x[:1] == ('star',) for x in v[1:]):
+            raise NotLiteral('display with an unknown part')
+        xs = [to_python(x) for x in v[1:]]
+        return tuple(xs) if v[0] == 'tuple' else (xs if v[0] == 'list' else frozenset(xs))
+    if isinstance(v, tuple) and v[:1] == ('dict',):
+        out = {}
+        for it in v[1:]:
+            if it[0] == 'dstar':
+                raise NotLiteral('dict with an unknown part')
+            out[to_python(it[0])] = to_python(it[1])
+        return out
+    raise NotLiteral('not a constant: %r' % (freeze(v),))
+
+
+def executed_value(F: Facts, m: Module, name: str):
+    """Value of a module-level name taken from running the module body through the evaluator (for names computed by calls of
+    package helpers, comprehensions over other tables, globals().update(...))."""
+    from .symexec import exec_module_body
+    env = exec_module_body(F, m)
+    if name not in env:
+        raise NotLiteral('%s.%s is not bound by running the module body' % (m.name, name))
+    return to_python(env[name])
+
+
 def module_value(F: Facts, m: Module, name: str, _depth: int = 0):
     if name in m.assigns:
         vals = m.assigns[name]
         if len(vals) != 1 or vals[0] is None:
             raise NotLiteral('%s.%s is assigned more than once' % (m.name, name))
-        return eval_literal(F, m, vals[0], _depth + 1)
+        try:
+            return eval_literal(F, m, vals[0], _depth + 1)
+        except NotLiteral as e:
+            try:
+                return executed_value(F, m, name)
+            except NotLiteral:
+                raise e
     if name in m.imports:
         r = F.resolve_dotted(m.imports[name])
         head, _, last = m.imports[name].rpartition('.')
@@ -376,8 +423,39 @@ def extract(F: Facts) -> Grammar:
     funcs.sort()
     prods: List[Production] = []
     raw: List[Tuple[str, List[str], str, int, int]] = []
+    doc_over = {}
+    dyn_ = sorted({n.id for n in ast.walk(rules_m.tree) if isinstance(n, ast.Name) and n.id in ('globals', 'vars', 'locals', 'setattr', 'exec', 'eval')})
+    p_assigned = [n_ for n_ in rules_m.assigns if n_.startswith('p_')]
+    if dyn_ or p_assigned:
+        # action functions that only exist after the module body has run (bound through globals(), made by factories)
+        from .symexec import exec_module_body, Closure
+        env_ = exec_module_body(F, rules_m)
+        for st, msg in F.__dict__.get('_module_env_problems', {}).get(rules_m.name, []):
+            names_ = {n.id for n in ast.walk(st) if isinstance(n, ast.Name)}
+            if names_ & set(dyn_) or any(x.startswith('p_') for x in names_):
+                raise AnalysisError('grammar: %s:%d: the statement may bind grammar actions and could not be evaluated statically: %s'
+                                    % (rules_m.rel, st.lineno, msg[:200]))
+        extra_ = [k for k in env_ if k.startswith('p_') and k not in rules_m.defs]
+        if extra_ or any(x in ('exec', 'eval', 'setattr') for x in dyn_):
+            raise AnalysisError('grammar: actions bound at import time (%s) are not modelled: the productions are read from the '
+                                'def statements of the rules module' % ', '.join(sorted(extra_)[:4] or dyn_))
+    if any(isinstance(n, ast.Attribute) and n.attr == '__doc__' for n in ast.walk(rules_m.tree)):
+        # docstrings attached while the module is imported (a decorator computing the productions)
+        from .symexec import exec_module_body
+        exec_module_body(F, rules_m)
+        for st, msg in F.__dict__.get('_module_env_problems', {}).get(rules_m.name, []):
+            if isinstance(st, ast.FunctionDef) and st.name.startswith('p_'):
+                raise AnalysisError('grammar: %s:%d: the decorators of %s could not be evaluated statically: %s'
+                                    % (rules_m.rel, st.lineno, st.name, msg[:200]))
+        doc_over = F.__dict__.get('_doc_overrides', {})
     for line, name, node in funcs:
         doc = ast.get_docstring(node, clean=False)
+        q_ = rules_m.name + '.' + name
+        if q_ in doc_over:
+            dv = doc_over[q_]
+            if not (isinstance(dv, tuple) and len(dv) == 2 and dv[0] == 'const' and isinstance(dv[1], str)):
+                raise AnalysisError('grammar: the docstring attached to %s at import time is not a constant' % name)
+            doc = '\n' + dv[1]          # (line numbers of the productions are those of the def)
         if not doc:
             continue
         lastp = None
@@ -444,6 +522,7 @@ class LexRule:
     func: Optional[ast.FunctionDef]
     line: int
     dropped: bool = False      # t_ignore_<X> string rule: the match is discarded, no token is produced
+    closure: Any = None        # rule function made by a factory at import time: the closure (free variables of the rule)
 
 
 @dataclass
@@ -454,6 +533,53 @@ class LexSpec:
     error_func: Optional[ast.FunctionDef]
     tokens: Tuple[str, ...]
     reflags: int
+
+
+DYNAMIC_BINDERS = ('globals', 'vars', 'locals', 'setattr', 'exec', 'eval', '__dict__')
+
+
+def _rule_regex(F: Facts, lex_m: Module, name: str, node: ast.FunctionDef, closure=None) -> str:
+    doc = ast.get_docstring(node, clean=False)
+    if node.decorator_list:
+        # @TOKEN(<regex expression>) from ply.lex sets the rule's regex; the expression must fold to a string
+        d0 = node.decorator_list[0]
+        if len(node.decorator_list) == 1 and isinstance(d0, ast.Call) and len(d0.args) == 1 and not d0.keywords \
+                and F.resolve_expr(lex_m, d0.func) in (('ext', 'smartquery.ply.lex.TOKEN'), ('ext', 'smartquery.ply.lex.Token')):
+            try:
+                if closure is not None:
+                    # a rule made by a factory function: the expression is evaluated with the factory's variables
+                    from .symexec import SymExec, Frame, Unrecognised
+                    from .facts import FuncInfo
+                    se = SymExec(F, FuncInfo(closure.qual, lex_m, node))
+                    se._reset([])
+                    try:
+                        doc = to_python(se.ev(d0.args[0], Frame(lex_m, closure.qual, None, env={}, outer=closure.outer)))
+                    except Unrecognised as e:
+                        raise NotLiteral(str(e))
+                else:
+                    try:
+                        doc = eval_literal(F, lex_m, d0.args[0])
+                    except NotLiteral:
+                        # computed with package helpers / module-level tables: evaluate in the executed module's bindings
+                        from .symexec import SymExec, Frame, Unrecognised, exec_module_body
+                        from .facts import FuncInfo
+                        env_ = exec_module_body(F, lex_m)
+                        se = SymExec(F, FuncInfo(lex_m.name + '.' + name, lex_m, node))
+                        se._reset([])
+                        se.module_env[lex_m.name] = env_
+                        try:
+                            doc = to_python(se.ev(d0.args[0], Frame(lex_m, lex_m.name + '.<module>', None, env=dict(env_))))
+                        except Unrecognised as e:
+                            raise NotLiteral(str(e))
+            except NotLiteral as e:
+                raise AnalysisError('lexer: the regex of @TOKEN rule %s does not fold to a constant: %s' % (name, e))
+            if not isinstance(doc, str):
+                raise AnalysisError('lexer: the regex of @TOKEN rule %s is not a string' % name)
+        else:
+            raise AnalysisError('lexer: decorated token rule %s is not modelled' % name)
+    if not doc:
+        raise AnalysisError('lexer: rule %s has no regex docstring' % name)
+    return doc
 
 
 def extract_lexer(F: Facts, g: Optional[Grammar] = None) -> LexSpec:
@@ -479,38 +605,85 @@ def extract_lexer(F: Facts, g: Optional[Grammar] = None) -> LexSpec:
                 continue
             if tn == 'ignore' or tn.startswith('ignore_'):
                 raise AnalysisError('lexer: %s as a function is not modelled' % name)
-            doc = ast.get_docstring(node, clean=False)
-            if node.decorator_list:
-                # @TOKEN(<regex expression>) from ply.lex sets the rule's regex; the expression must fold to a string
-                if len(node.decorator_list) == 1 and isinstance(node.decorator_list[0], ast.Call) and len(node.decorator_list[0].args) == 1 \
-                        and not node.decorator_list[0].keywords \
-                        and F.resolve_expr(lex_m, node.decorator_list[0].func) in (('ext', 'smartquery.ply.lex.TOKEN'), ('ext', 'smartquery.ply.lex.Token')):
-                    try:
-                        doc = eval_literal(F, lex_m, node.decorator_list[0].args[0])
-                    except NotLiteral as e:
-                        raise AnalysisError('lexer: the regex of @TOKEN rule %s does not fold to a constant: %s' % (name, e))
-                    if not isinstance(doc, str):
-                        raise AnalysisError('lexer: the regex of @TOKEN rule %s is not a string' % name)
-                else:
-                    raise AnalysisError('lexer: decorated token rule %s is not modelled' % name)
-            if not doc:
-                raise AnalysisError('lexer: rule %s has no regex docstring' % name)
-            frules.append(LexRule(tn, doc, node, node.lineno))
-    for name, vals in lex_m.assigns.items():
-        if name.startswith('t_'):
-            tn = name[2:]
-            if len(vals) != 1 or not isinstance(vals[0], ast.Constant) or not isinstance(vals[0].value, str):
-                raise AnalysisError('lexer: %s is not a plain string constant' % name)
-            if tn == 'ignore':
-                ignore = vals[0].value
+            frules.append(LexRule(tn, _rule_regex(F, lex_m, name, node), node, node.lineno))
+    # rules the module does not spell as `def t_X` / `t_X = '<regex>'`: made while the module is imported (factory functions
+    # returning rule closures, regexes computed from tables, globals().update(...)).  The module body is run through the
+    # evaluator once and the t_ bindings are read from the result.
+    plain = all(len(vals) == 1 and isinstance(vals[0], ast.Constant) and isinstance(vals[0].value, str)
+                for name, vals in lex_m.assigns.items() if name.startswith('t_'))
+    dynamic = sorted({n.id for n in ast.walk(lex_m.tree) if isinstance(n, ast.Name) and n.id in DYNAMIC_BINDERS} |
+                     {n.attr for n in ast.walk(lex_m.tree) if isinstance(n, ast.Attribute) and n.attr in DYNAMIC_BINDERS})
+    if plain and not dynamic:
+        for name, vals in lex_m.assigns.items():
+            if name.startswith('t_'):
+                tn = name[2:]
+                if tn == 'ignore':
+                    ignore = vals[0].value
+                    continue
+                srules.append(LexRule(tn, vals[0].value, None, vals[0].lineno, dropped=tn.startswith('ignore_')))
+        srules.sort(key=lambda r: r.name)
+    else:
+        from .symexec import exec_module_body, module_binding_order, Closure, freeze
+        env = exec_module_body(F, lex_m)
+        order = module_binding_order(F, lex_m)
+        for st, msg in F.__dict__.get('_module_env_problems', {}).get(lex_m.name, []):
+            names = {n.id for n in ast.walk(st) if isinstance(n, ast.Name)}
+            if names & set(DYNAMIC_BINDERS) or any(x.startswith('t_') for x in names) or 'tokens' in names:
+                raise AnalysisError('lexer: %s:%d: the statement may bind token rules and could not be evaluated statically: %s'
+                                    % (lex_m.rel, st.lineno, msg[:200]))
+        if any(x in ('exec', 'eval', 'setattr', '__dict__') for x in dynamic):
+            raise AnalysisError('lexer: the lexer module uses %s; the rule set cannot be read off the source'
+                                % ', '.join(x for x in dynamic if x in ('exec', 'eval', 'setattr', '__dict__')))
+        for name in order:
+            if not name.startswith('t_') or name in lex_m.defs:
                 continue
-            srules.append(LexRule(tn, vals[0].value, None, vals[0].lineno, dropped=tn.startswith('ignore_')))
-    if 'states' in lex_m.assigns:
-        raise AnalysisError('lexer: lexer states are not modelled')
+            tn = name[2:]
+            v = env.get(name)
+            forced_regex = None
+            if isinstance(v, tuple) and v[:1] == ('tokenrule',) and len(v) == 3:
+                # TOKEN(<regex>)(<function>) applied as a call
+                rx_ = freeze(v[1])
+                if not (isinstance(rx_, tuple) and len(rx_) == 2 and rx_[0] == 'const' and isinstance(rx_[1], str)):
+                    raise AnalysisError('lexer: the regex given to TOKEN(...) for %s is not a constant' % name)
+                forced_regex = rx_[1]
+                v = v[2]
+            if isinstance(v, Closure):
+                if not isinstance(v.node, ast.FunctionDef):
+                    raise AnalysisError('lexer: %s is bound to a lambda; PLY rules need a docstring or @TOKEN' % name)
+                if tn in ('error', 'eof', 'ignore') or tn.startswith('ignore_'):
+                    raise AnalysisError('lexer: %s made at import time is not modelled' % name)
+                r = LexRule(tn, forced_regex if forced_regex is not None else _rule_regex(F, lex_m, name, v.node, v), v.node, v.node.lineno)
+                r.closure = v
+                frules.append(r)
+                continue
+            fv = freeze(v)
+            if isinstance(fv, tuple) and fv[:1] == ('ref',) and fv[1] in ('fnraw', 'func', 'fn') and fv[2] in F.functions:
+                fi = F.functions[fv[2]]
+                if tn in ('error', 'eof', 'ignore') or tn.startswith('ignore_'):
+                    raise AnalysisError('lexer: %s bound to another function is not modelled' % name)
+                frules.append(LexRule(tn, forced_regex if forced_regex is not None else _rule_regex(F, lex_m, name, fi.node), fi.node, fi.node.lineno))
+                continue
+            if forced_regex is not None:
+                raise AnalysisError('lexer: TOKEN(...) applied to something that is not a function of the package (%s)' % name)
+            if isinstance(fv, tuple) and len(fv) == 2 and fv[0] == 'const' and isinstance(fv[1], str):
+                if tn == 'ignore':
+                    ignore = fv[1]
+                    continue
+                line = lex_m.assigns[name][0].lineno if name in lex_m.assigns and lex_m.assigns[name][0] is not None else 0
+                srules.append(LexRule(tn, fv[1], None, line, dropped=tn.startswith('ignore_')))
+                continue
+            raise AnalysisError('lexer: %s is bound at import time to something that is neither a regex string nor a rule function: %r'
+                                % (name, fv if not isinstance(v, Closure) else v))
+        for name in lex_m.assigns:
+            if name.startswith('t_') and name not in env:
+                raise AnalysisError('lexer: %s is assigned but running the module body does not bind it' % name)
+        # PLY is given the module object and collects the symbols from dir(module), i.e. alphabetically; the sorts by line
+        # (function rules) and by regex length (string rules) below are stable
+        frules.sort(key=lambda r: r.name)
+        srules.sort(key=lambda r: r.name)
     frules.sort(key=lambda r: r.line)
     # PLY: string rules sorted by decreasing regex length (stable for ties: sort is on a list built from
     # dir() order, i.e. alphabetical by name)
-    srules.sort(key=lambda r: r.name)
     srules.sort(key=lambda r: len(r.regex), reverse=True)
     try:
         tokens = tuple(module_value(F, lex_m, 'tokens'))
